@@ -53,6 +53,14 @@ def base_loop_table(run, model, rule="C04.accept-all"):
                     b = bind_call(collapse, call)
                     if b and "bases_have_func" in b and isinstance(b["bases_have_func"], ast.Name):
                         have_var = b["bases_have_func"].id
+                        # look through plain copies (``x__i3 = x`` made by inlining a helper)
+                        for _ in range(4):
+                            srcs = [st.value.id for st in ast.walk(nf.fi.node) if isinstance(st, ast.Assign) and len(st.targets) == 1 and isinstance(st.targets[0], ast.Name) and st.targets[0].id == have_var and isinstance(st.value, ast.Name)]
+                            others = [st for st in ast.walk(nf.fi.node) if isinstance(st, ast.Assign) and len(st.targets) == 1 and isinstance(st.targets[0], ast.Name) and st.targets[0].id == have_var and not isinstance(st.value, ast.Name)]
+                            if len(srcs) == 1 and not others:
+                                have_var = srcs[0]
+                            else:
+                                break
         # the accept-all flag: the local whose truth, after the loop, empties the inherited groups
         emptier_vars = set()
         for n in flow.cfg.nodes:
